@@ -32,7 +32,7 @@ static void init_sigs(void) {
 
 /* ---- stream generation ------------------------------------------------------------------------------- */
 #define MAXS 760
-typedef struct { unsigned char b[MAXS]; size_t n; unsigned char flush_before[MAXS + 1]; int has_nl_in_string, has_block_nl, has_flush, mutated, has_expr_nesting; } stream_t;
+typedef struct { unsigned char b[MAXS]; size_t n; unsigned char flush_before[MAXS + 1]; int has_nl_in_string, has_block_nl, has_flush, mutated, has_expr_nesting, has_lookahead_data; } stream_t;
 
 static void put(stream_t * s, const void * d, size_t n) { if (s->n + n <= MAXS - 8) { memcpy(s->b + s->n, d, n); s->n += n; } }
 static void puts_(stream_t * s, const char * t) { put(s, t, strlen(t)); }
@@ -57,7 +57,7 @@ static void gen_block(vh_rng_t * rng, stream_t * s) {
 }
 static void gen_unit(vh_rng_t * rng, stream_t * s) {
     static const char * const nums[] = { "1", "-2.5", "3e2", "1 E3", "10 V", "2.5MV", "MIN", "#HFF", "#B101", ".5", "7 FOO" };
-    switch (vh_below(rng, 13)) {
+    switch (vh_below(rng, 15)) {
         case 0: puts_(s, "T1 "); gen_string(rng, s); if (vh_chance(rng, 1, 2)) { puts_(s, ","); puts_(s, nums[vh_below(rng, 11)]); } break;
         case 1: puts_(s, "TXT "); gen_string(rng, s); break;
         case 2: puts_(s, "BLK "); gen_block(rng, s); if (vh_chance(rng, 1, 3)) puts_(s, ",12"); break;
@@ -80,6 +80,15 @@ static void gen_unit(vh_rng_t * rng, stream_t * s) {
         case 9: puts_(s, "*IDN?"); break;
         case 10: puts_(s, vh_chance(rng, 1, 2) ? "FOO:BAR 1" : "Q2?"); break; /* undefined, or relative to a SYSTem: predecessor */
         case 11: break; /* empty unit */
+        case 13: {
+            /* data whose tokenisation depends on bytes still to come (#H before its first digit, an expression before its ')'), followed in the
+             * same unit by data that may contain a terminator */
+            static const char * const first[] = { "#H1F", "#Q17", "#B101", "(1:2)", "(@1,2)", "#h0" };
+            puts_(s, "T1 "); puts_(s, first[vh_below(rng, 6)]); puts_(s, vh_chance(rng, 1, 3) ? " , " : ",");
+            if (vh_chance(rng, 1, 2)) gen_string(rng, s); else gen_block(rng, s);
+            s->has_lookahead_data = 1;
+            break;
+        }
         default: puts_(s, "T1 "); gen_block(rng, s); puts_(s, ","); gen_string(rng, s); break;
     }
 }
@@ -256,6 +265,7 @@ static void p0_run(uint64_t idx, vh_rng_t * rng) {
     if (s.has_block_nl) vh_count("stream.terminator_inside_block", 1);
     if (s.has_flush) vh_count("stream.with_flush_calls", 1);
     if (s.mutated) vh_count("stream.mutated", 1);
+    if (s.has_lookahead_data) vh_count("stream.nondecimal_or_expression_followed_by_string_or_block", 1);
     if (s.has_expr_nesting) vh_count("stream.expression_with_nested_parentheses_or_strings", 1);
     if (s.n > 258) vh_count("stream.longer_than_258_bytes", 1);
     if (s.n > 514) vh_count("stream.longer_than_514_bytes", 1);
@@ -270,6 +280,6 @@ int main(int argc, char ** argv) {
     static const vh_phase_t phases[] = { { "streams", p0_count, p0_run } };
     vh_decoy_enable(11); vh_require("decoy.messages_run_on_a_second_context"); vh_require("history.pending_units_then_overrun"); vh_require("seg.all_at_once"); vh_require("seg.single_split"); vh_require("seg.random_multiway"); vh_require("stream.terminator_inside_block");
     vh_require("stream.terminator_inside_string"); vh_require("stream.with_flush_calls"); vh_require("stream.leaves_remainder"); vh_require("stream.produces_output");
-    vh_require("stream.raises_errors"); vh_require("family.tight_buffer"); vh_require("stream.longer_than_258_bytes"); vh_require("stream.expression_with_nested_parentheses_or_strings"); vh_require("stream.longer_than_514_bytes");
+    vh_require("stream.raises_errors"); vh_require("family.tight_buffer"); vh_require("stream.longer_than_258_bytes"); vh_require("stream.nondecimal_or_expression_followed_by_string_or_block"); vh_require("stream.expression_with_nested_parentheses_or_strings"); vh_require("stream.longer_than_514_bytes");
     return vh_main(argc, argv, "C08", phases, 1);
 }
